@@ -126,6 +126,10 @@ WBXML_DECLARE(WBXMLTag *) wbxml_tag_duplicate(WBXMLTag *tag)
         break;
     case WBXML_VALUE_LITERAL:
         result->u.literal = wbxml_buffer_duplicate(tag->u.literal);
+        if ((result->u.literal == NULL) && (tag->u.literal != NULL)) {
+            wbxml_free(result);
+            return NULL;
+        }
         break;
     default:
         /* Must Never Happen ! */
@@ -235,6 +239,10 @@ WBXML_DECLARE(WBXMLAttributeName *) wbxml_attribute_name_duplicate(WBXMLAttribut
         break;
     case WBXML_VALUE_LITERAL:
         result->u.literal = wbxml_buffer_duplicate(name->u.literal);
+        if ((result->u.literal == NULL) && (name->u.literal != NULL)) {
+            wbxml_free(result);
+            return NULL;
+        }
         break;
     default:
         /* Must Never Happen ! */
@@ -309,6 +317,13 @@ WBXML_DECLARE(WBXMLAttribute *) wbxml_attribute_duplicate(WBXMLAttribute *attr)
 
     result->name = wbxml_attribute_name_duplicate(attr->name);
     result->value = wbxml_buffer_duplicate(attr->value);
+
+    if (((result->name == NULL) && (attr->name != NULL)) ||
+        ((result->value == NULL) && (attr->value != NULL)))
+    {
+        wbxml_attribute_destroy(result);
+        return NULL;
+    }
 
     return result;
 }
